@@ -6,6 +6,13 @@ from . import common as c
 
 SUPPORT = ["Opts/Spec.v", "Opts/Proofs.v"]
 
+CLAIM = {
+    "gens": ["OptBits"],
+    "text": "Theorems (Coq, all 2^16 Config values, finite sweep by vm_compute lifted with forallb_forall): Config.Froze - regenerated from sonic.go on every run - sets exactly the documented option bits; the bits agree across public/internal/JIT/VM/native layers and are pairwise distinct; Encoder/Decoder setters flip the same bit. The documented *effect* of every switch and the entry-point equivalences are decided on the real code by metamorphic runs with encoding/json as oracle (tie/search half, not a theorem).",
+    "note": "Trusted: Coq kernel + vm_compute, the translator tools/tx, extraction (ExtrOcamlBasic), Go harness, encoding/json as oracle. Option effects are tested, not proved.",
+    "technique": "Coq proof over a model regenerated from source (translator) + exhaustive froze tie + metamorphic differential search",
+}
+
 
 def classify_known(f):
     """narrow signature of the recorded defect KF-short-literal-oob"""
